@@ -90,4 +90,247 @@ theorem xbuild_root (nm : Str) (a : List (Str × Str)) (kids : Forest) (hn : NoI
   rw [xFlush_inner _ ⟨nm, a, (acc kids (.nil, [])).1⟩ [] rfl]
   simp [Except.map, St.appendNode, acc_nil_norm, Forest.append]
 
+/-! ### deliveries with CDATA sections / ignorable white space
+
+In a *delivery forest* a `text s` node is a piece sent through `characters`, an `iws s` node a piece sent through
+`cdata` (`devents false`) or through `ignorableWhitespace` (`devents true`).  `asText` forgets the difference (the XPath view). -/
+
+def asText : Forest → Forest
+  | .nil => .nil
+  | .text s n => .text s (asText n)
+  | .iws s n => .text s (asText n)
+  | .comment s n => .comment s (asText n)
+  | .pi t d n => .pi t d (asText n)
+  | .elem nm a k n => .elem nm a (asText k) (asText n)
+
+/-- result events of a delivery forest; `w` says how the marked pieces are sent: `ignorableWhitespace` or `cdata` -/
+def devents (w : Bool) : Forest → List TEv
+  | .nil => []
+  | .text s n => .characters s :: devents w n
+  | .iws s n => (if w then .ignorableWhitespace s else .cdata s) :: devents w n
+  | .comment s n => .comment s :: devents w n
+  | .pi t d n => .pi t d :: devents w n
+  | .elem nm a k n => .startElement nm a :: (devents w k ++ .endElement :: devents w n)
+
+/-- the DOM target's accumulator: a specially delivered piece becomes a Text/CDATASection node of its own -/
+def accX : Forest → Forest × Str → Forest × Str
+  | .nil, p => p
+  | .text s n, p => accX n (p.1, p.2 ++ s)
+  | .iws s n, p => accX n ((flushK p.1 p.2).append (.text s .nil), [])
+  | .comment s n, p => accX n ((flushK p.1 p.2).append (.comment s .nil), [])
+  | .pi t d n, p => accX n ((flushK p.1 p.2).append (.pi t d .nil), [])
+  | .elem nm a k n, p =>
+    accX n ((flushK p.1 p.2).append (.elem nm a (flushK (accX k (.nil, [])).1 (accX k (.nil, [])).2) .nil), [])
+
+/-- put raw text in front, without merging -/
+def consRaw (c : Str) (g : Forest) : Forest := if c.isEmpty then g else .text c g
+
+theorem norm_consRaw (c : Str) (g : Forest) : norm (consRaw c g) = consText c (norm g) := by
+  unfold consRaw
+  by_cases h : c = []
+  · subst h; simp
+  · have : c.isEmpty = false := by cases c <;> simp_all
+    simp [this, norm]
+
+theorem flushK_consRaw (k : Forest) (b : Str) : flushK k b = k.append (consRaw b .nil) := by
+  unfold flushK consRaw; split <;> simp
+
+theorem consRaw_append (b : Str) (g h : Forest) : (consRaw b g).append h = consRaw b (g.append h) := by
+  unfold consRaw; split <;> simp [Forest.append]
+
+/-- `norm` of a chain depends on its tail only through the tail's `norm` -/
+theorem norm_append_congr (k : Forest) : ∀ (g g' : Forest), norm g = norm g' → norm (k.append g) = norm (k.append g') := by
+  induction k with
+  | nil => intro g g' h; simpa using h
+  | text s n ih => intro g g' h; simp [Forest.append, norm, ih g g' h]
+  | iws s n ih => intro g g' h; simp [Forest.append, norm, ih g g' h]
+  | comment s n ih => intro g g' h; simp [Forest.append, norm, ih g g' h]
+  | pi t d n ih => intro g g' h; simp [Forest.append, norm, ih g g' h]
+  | elem nm a kids n _ ih => intro g g' h; simp [Forest.append, norm, ih g g' h]
+
+/-- the DOM target's accumulator, in the XPath view, is the normal form of the delivery read as text -/
+theorem accX_norm (f : Forest) : ∀ (k : Forest) (b : Str),
+    norm (flushK (accX f (k, b)).1 (accX f (k, b)).2) = norm (k.append (consRaw b (asText f))) := by
+  induction f with
+  | nil => intro k b; simp [accX, asText, flushK_consRaw]
+  | text s n ih =>
+    intro k b
+    simp only [accX, asText]
+    rw [ih]
+    apply norm_append_congr
+    rw [norm_consRaw, norm_consRaw, norm, consText_consText]
+  | iws s n ih =>
+    intro k b
+    simp only [accX, asText]
+    rw [ih, flushK_consRaw]
+    congr 1
+    simp [consRaw, Forest.append_assoc, consRaw_append, Forest.append]
+    by_cases hb : b = [] <;> simp [hb, Forest.append]
+  | comment s n ih =>
+    intro k b
+    simp only [accX, asText]
+    rw [ih, flushK_consRaw]
+    congr 1
+    simp [consRaw, Forest.append_assoc, consRaw_append, Forest.append]
+    by_cases hb : b = [] <;> simp [hb, Forest.append]
+  | pi t d n ih =>
+    intro k b
+    simp only [accX, asText]
+    rw [ih, flushK_consRaw]
+    congr 1
+    simp [consRaw, Forest.append_assoc, consRaw_append, Forest.append]
+    by_cases hb : b = [] <;> simp [hb, Forest.append]
+  | elem nm a kids n ihk ih =>
+    intro k b
+    simp only [accX, asText]
+    rw [ih, flushK_consRaw]
+    have hk := ihk .nil []
+    simp only [consRaw, List.isEmpty_nil, ↓reduceIte, Forest.nil_append] at hk
+    have e1 : ((k.append (consRaw b .nil)).append
+          (.elem nm a (flushK (accX kids (.nil, [])).1 (accX kids (.nil, [])).2) .nil)).append (consRaw [] (asText n)) =
+        k.append (consRaw b (.elem nm a (flushK (accX kids (.nil, [])).1 (accX kids (.nil, [])).2) (asText n))) := by
+      simp [consRaw, Forest.append_assoc, consRaw_append, Forest.append]
+      by_cases hb : b = [] <;> simp [hb, Forest.append]
+    rw [e1]
+    apply norm_append_congr
+    rw [norm_consRaw, norm_consRaw]
+    simp [norm, hk]
+
+/-- the DOM target's machine inside an element on any delivery -/
+theorem xrun_devents_inner (w : Bool) (f : Forest) : ∀ (st : St) (fr : Frame) (frs : List Frame) (rest : List TEv),
+    st.stack = fr :: frs →
+    xrun (devents w f ++ rest) st =
+      xrun rest { st with stack := { fr with kids := (accX f (fr.kids, st.buf)).1 } :: frs,
+                          buf := (accX f (fr.kids, st.buf)).2 } := by
+  induction f with
+  | nil =>
+    intro st fr frs rest hs
+    cases st; simp only at hs; subst hs; simp [devents, accX]
+  | text s n ih =>
+    intro st fr frs rest hs
+    cases st with
+    | mk acc' dk de stack buf dtd =>
+      simp only at hs; subst hs
+      simp only [devents, List.cons_append, xrun, xstep]
+      rw [ih _ fr frs rest rfl]
+      simp [accX]
+  | iws s n ih =>
+    intro st fr frs rest hs
+    cases st with
+    | mk acc' dk de stack buf dtd =>
+      simp only at hs; subst hs
+      cases w <;>
+      · simp only [devents, List.cons_append, xrun, xstep, Bool.false_eq_true, ↓reduceIte]
+        rw [xFlush_inner _ fr frs rfl]
+        simp only [Except.map, St.appendNode]
+        rw [ih _ _ frs rest rfl]
+        simp [accX]
+  | comment s n ih =>
+    intro st fr frs rest hs
+    cases st with
+    | mk acc' dk de stack buf dtd =>
+      simp only at hs; subst hs
+      simp only [devents, List.cons_append, xrun, xstep]
+      rw [xFlush_inner _ fr frs rfl]
+      simp only [Except.map, St.appendNode]
+      rw [ih _ _ frs rest rfl]
+      simp [accX]
+  | pi t d n ih =>
+    intro st fr frs rest hs
+    cases st with
+    | mk acc' dk de stack buf dtd =>
+      simp only at hs; subst hs
+      simp only [devents, List.cons_append, xrun, xstep]
+      rw [xFlush_inner _ fr frs rfl]
+      simp only [Except.map, St.appendNode]
+      rw [ih _ _ frs rest rfl]
+      simp [accX]
+  | elem nm a kids n ihk ih =>
+    intro st fr frs rest hs
+    cases st with
+    | mk acc' dk de stack buf dtd =>
+      simp only at hs; subst hs
+      simp only [devents, List.cons_append, List.append_assoc, xrun, xstep]
+      rw [xFlush_inner _ fr frs rfl]
+      simp only [Except.bind]
+      rw [ihk _ ⟨nm, a, .nil⟩ (_ :: frs) _ rfl]
+      simp only [xrun, xstep]
+      rw [xFlush_inner _ ⟨nm, a, (accX kids (.nil, [])).1⟩ (_ :: frs) rfl]
+      simp only [Except.map, St.appendNode]
+      rw [ih _ _ frs rest rfl]
+      simp [accX]
+
+/-- the DOM built for a result with one document element, any delivery -/
+theorem xbuild_root_d (w : Bool) (nm : Str) (a : List (Str × Str)) (kids : Forest) :
+    xbuild (.startElement nm a :: (devents w kids ++ [.endElement])) =
+      .ok (.elem nm a (flushK (accX kids (.nil, [])).1 (accX kids (.nil, [])).2) .nil) := by
+  unfold xbuild
+  simp only [xrun, xstep, xFlush, List.isEmpty_nil, ↓reduceIte, Except.bind, Bool.false_eq_true]
+  rw [xrun_devents_inner w kids _ ⟨nm, a, .nil⟩ [] _ rfl]
+  simp only [xrun, xstep]
+  rw [xFlush_inner _ ⟨nm, a, (accX kids (.nil, [])).1⟩ [] rfl]
+  simp [Except.map, St.appendNode, Forest.append]
+
+theorem accX_nil_norm (f : Forest) : norm (flushK (accX f (.nil, [])).1 (accX f (.nil, [])).2) = norm (asText f) := by
+  have := accX_norm f .nil []
+  simpa [consRaw] using this
+
+theorem devents_false_asText (f : Forest) : (devents false f).map tAsText = tevents (asText f) := by
+  induction f with
+  | nil => rfl
+  | text s n ih => simp [devents, tevents, asText, tAsText, ih]
+  | iws s n ih => simp [devents, tevents, asText, tAsText, ih]
+  | comment s n ih => simp [devents, tevents, asText, tAsText, ih]
+  | pi t d n ih => simp [devents, tevents, asText, tAsText, ih]
+  | elem nm a k n ihk ih => simp [devents, tevents, asText, tAsText, ihk, ih]
+
+theorem devents_true_tevents (f : Forest) : devents true f = tevents f := by
+  induction f with
+  | nil => rfl
+  | text s n ih => simp [devents, tevents, ih]
+  | iws s n ih => simp [devents, tevents, ih]
+  | comment s n ih => simp [devents, tevents, ih]
+  | pi t d n ih => simp [devents, tevents, ih]
+  | elem nm a k n ihk ih => simp [devents, tevents, ihk, ih]
+
+theorem filter_const_false {α : Type} (l : List α) : l.filter (fun _ => false) = [] := by
+  induction l <;> simp_all
+
+theorem orderAttrs_idem (a : List (Str × Str)) : orderAttrs (orderAttrs a) = orderAttrs a := by
+  simp [orderAttrs, List.filter_append, List.filter_filter, filter_const_false]
+
+theorem norm_asText_consText (s : Str) (g : Forest) : norm (asText (consText s g)) = consText s (norm (asText g)) := by
+  by_cases hs : s = []
+  · subst hs; simp only [consText_nil_left]
+  · have hse : s.isEmpty = false := by cases s <;> simp_all
+    cases g with
+    | text b n =>
+      show norm (asText (.text (s ++ b) n)) = consText s (norm (asText (.text b n)))
+      simp only [asText, norm, consText_consText]
+    | iws b n =>
+      have : consText s (.iws b n) = .text s (.iws b n) := by simp [consText, hse]
+      rw [this]; simp only [asText, norm]
+    | nil =>
+      have : consText s .nil = .text s .nil := by simp [consText, hse]
+      rw [this]; simp only [asText, norm]
+    | comment c n =>
+      have : consText s (.comment c n) = .text s (.comment c n) := by simp [consText, hse]
+      rw [this]; simp only [asText, norm]
+    | pi t d n =>
+      have : consText s (.pi t d n) = .text s (.pi t d n) := by simp [consText, hse]
+      rw [this]; simp only [asText, norm]
+    | elem nm a k n =>
+      have : consText s (.elem nm a k n) = .text s (.elem nm a k n) := by simp [consText, hse]
+      rw [this]; simp only [asText, norm]
+
+/-- normalising before or after forgetting the delivery marks gives the same XPath view -/
+theorem norm_asText_norm (f : Forest) : norm (asText (norm f)) = norm (asText f) := by
+  induction f with
+  | nil => rfl
+  | text s n ih => simp [norm, asText, norm_asText_consText, ih]
+  | iws s n ih => simp [norm, asText, ih]
+  | comment s n ih => simp [norm, asText, ih]
+  | pi t d n ih => simp [norm, asText, ih]
+  | elem nm a k n ihk ih => simp [norm, asText, ihk, ih, orderAttrs_idem]
+
 end XalanModel.C05
